@@ -234,6 +234,9 @@ func (x *Exec) standaloneScript(o *Obligation, solver string, model bool) string
 	if model {
 		sb.WriteString("(get-model)\n")
 	}
+	for _, t := range x.evalTerms {
+		sb.WriteString("(get-value (" + em.Str(t) + "))\n")
+	}
 	return sb.String()
 }
 
@@ -585,4 +588,100 @@ func (x *Exec) quickUnsat(extra *Term) bool {
 	out, _ := runSolver("z3-new", f, 3)
 	os.Remove(f)
 	return firstStatus(out) == "unsat"
+}
+
+
+// explain: for a failed obligation whose goal is a conjunction, report the status of each conjunct (debugging aid).
+func (x *Exec) explain(o *Obligation, dir string) {
+	var conj []*Term
+	var flat func(t *Term, hyp *Term)
+	flat = func(t *Term, hyp *Term) {
+		if t.Kind == KApp && t.Op == "and" {
+			for _, a := range t.Args {
+				flat(a, hyp)
+			}
+			return
+		}
+		if t.Kind == KApp && t.Op == "=>" && len(t.Args) == 2 && t.Args[1].Kind == KApp && t.Args[1].Op == "and" {
+			for _, a := range t.Args[1].Args {
+				flat(x.tt.Implies(t.Args[0], a), hyp)
+			}
+			return
+		}
+		conj = append(conj, t)
+	}
+	flat(o.Goal, nil)
+	if len(conj) < 2 {
+		return
+	}
+	for i, c := range conj {
+		o2 := *o
+		o2.Goal = c
+		emitMu.Lock()
+		sc := x.standaloneScript(&o2, "z3", false)
+		emitMu.Unlock()
+		f := filepath.Join(dir, fmt.Sprintf("explain.%d.smt2", i))
+		os.WriteFile(f, []byte(sc), 0o644)
+		out, sec := runSolver("z3-new", f, 10)
+		st := firstStatus(out)
+		if st == "sat" && os.Getenv("GOVC_EXPLAIN") == "2" {
+			// values of the sub-terms of the failing conjunct in the counter-model
+			var subs []*Term
+			seen := map[int]bool{}
+			var walk func(t *Term, d int)
+			walk = func(t *Term, d int) {
+				if seen[t.id] || t.hasBound || len(subs) > 60 || d > 6 {
+					return
+				}
+				seen[t.id] = true
+				if t.Kind == KApp {
+					subs = append(subs, t)
+					for _, a := range t.Args {
+						walk(a, d+1)
+					}
+				}
+			}
+			walk(c, 0)
+			x.evalTerms = subs
+			emitMu.Lock()
+			sc2 := x.standaloneScript(&o2, "z3", false)
+			emitMu.Unlock()
+			x.evalTerms = nil
+			f2 := filepath.Join(dir, fmt.Sprintf("explain.%d.eval.smt2", i))
+			os.WriteFile(f2, []byte(sc2), 0o644)
+			out2, _ := runSolver("z3-new", f2, 20)
+			lines := strings.Split(out2, "\n")
+			vals := []string{}
+			for _, l := range lines[1:] {
+				if strings.HasPrefix(l, "((") {
+					// value is the last token(s)
+					vals = append(vals, l)
+				}
+			}
+			for k, t := range subs {
+				txt := t.String()
+				if len(txt) > 160 {
+					txt = txt[:160] + "..."
+				}
+				v := "?"
+				if k < len(vals) {
+					v = vals[k]
+					if j := strings.LastIndex(v, " "); j >= 0 && len(v) > 200 {
+						v = "..." + v[len(v)-60:]
+					}
+					if len(v) > 60 {
+						v = "..." + v[len(v)-60:]
+					}
+				}
+				fmt.Printf("            %s  :=  %s\n", txt, v)
+			}
+		}
+		if st != "unsat" {
+			txt := c.String()
+			if len(txt) > 600 {
+				txt = txt[:600] + "..."
+			}
+			fmt.Printf("        conjunct %d/%d: %s (%.1fs): %s\n", i+1, len(conj), st, sec, txt)
+		}
+	}
 }
